@@ -268,7 +268,7 @@ def find_node(program, clsname):
 STYLES = [("=", ", ", ""), (" = ", ", ", ""), (" =", ",", ""), ("= ", ",  ", " "), ("  =  ", " , ", "  "), ("\t=\t", ",\t", "")]
 
 
-def eval_shape(classes, key, posnames, kwnames, varmode=None, style=0):
+def eval_shape(classes, key, posnames, kwnames, varmode=None, style=0, zero=None):
     """Returns (status, info): status in {'python-rejects','rejected','ok','fail'}; info carries failure or emitted text + bound key."""
     from Reduino.transpile.emitter import emit
     from Reduino.transpile.parser import parse
@@ -278,6 +278,9 @@ def eval_shape(classes, key, posnames, kwnames, varmode=None, style=0):
     sig, target = signature_of(classes, owner, method)
     values = dict(spec["values"])
     values.update({k: v for k, v in HOST_ONLY_VALUES.items() if k in sig.parameters})
+    if zero is not None and isinstance(values.get(zero), (bool, int, float)):
+        # the falsy value of the parameter's type: "supplied, and zero" must not be read as "not supplied"
+        values[zero] = type(values[zero])(0)
     args = [values[n] for n in posnames]
     kwargs = {n: values[n] for n in kwnames}
     try:
@@ -299,7 +302,7 @@ def eval_shape(classes, key, posnames, kwnames, varmode=None, style=0):
     parts = [rv(n, values[n]) for n in posnames] + [f"{n}{eq}{rv(n, values[n])}" for n in kwnames]
     call_args = pad + sep.join(parts) + pad if parts else ""
     script = build_script(owner, method, call_args, spec, "\n".join(prelude_lines))
-    case = {"owner": owner, "method": method, "pos": posnames, "kw": kwnames, "var": sorted(k for k, v in varmode.items() if v), "script": script, "style": style}
+    case = {"owner": owner, "method": method, "pos": posnames, "kw": kwnames, "var": sorted(k for k, v in varmode.items() if v), "script": script, "style": style, "zero": zero}
     try:
         prog = parse(script)
         text = emit(prog)
@@ -369,11 +372,18 @@ def run_shard(name, seed, tier, **kw):
         work = []
         for i, (posnames, kwnames) in enumerate(shapes_for(sig, SPECS[key]["values"])):
             styles = range(len(STYLES)) if tier != "quick" else ([0, 1 + i % (len(STYLES) - 1)] if (posnames or kwnames) else [0])
-            work += [(posnames, kwnames, sty) for sty in styles]
-        for posnames, kwnames, sty in work:
-            st_, info = eval_shape(classes, key, posnames, kwnames, style=sty)
+            work += [(posnames, kwnames, sty, None) for sty in styles]
+            supplied = list(posnames) + list(kwnames)
+            if supplied:
+                # the same shape with one supplied argument at the falsy value of its type (rotating over the arguments; all of them in the thorough tier)
+                zs = supplied if tier != "quick" else [supplied[i % len(supplied)], (kwnames or supplied)[i % len(kwnames or supplied)]]
+                work += [(posnames, kwnames, 0, z) for z in dict.fromkeys(zs)]
+        for posnames, kwnames, sty, zero in work:
+            st_, info = eval_shape(classes, key, posnames, kwnames, style=sty, zero=zero)
             if sty:
                 r.count("restyled_call")
+            if zero:
+                r.count("zero_valued_argument")
             if st_ == "python-rejects":
                 r.count("python_rejects")
                 continue
@@ -457,5 +467,5 @@ def replay(case):
                      "expected": "byte-identical C++", "observed": _first_diff(ta, tb)}]
         return []
     varmode = {n: True for n in case.get("var", [])}
-    st_, info = eval_shape(classes, (case["owner"], case["method"]), case["pos"], case["kw"], varmode, style=case.get("style", 0))
+    st_, info = eval_shape(classes, (case["owner"], case["method"]), case["pos"], case["kw"], varmode, style=case.get("style", 0), zero=case.get("zero"))
     return [info] if st_ == "fail" else []
